@@ -49,21 +49,22 @@ TReset ==
 -----------------------------------------------------------------------------
 (* Part 3: the store.                                                      *)
 
-ObsOps(q) == {[k |-> q[i].k, h |-> q[i].h, c |-> q[i].c, v |-> 0, st |-> q[i].st] : i \in 1 .. Len(q)}
+\* (content is logged as a bit mask: update u = bit u)
+ObsOps(q) == {[k |-> q[i].k, h |-> q[i].h, c |-> Bits(q[i].c), v |-> 0, st |-> q[i].st] : i \in 1 .. Len(q)}
 
 \* The observed state in the shape of the model state.
 ObsState(o) ==
   [hs |-> [i \in 1 .. Len(o.hs) |->
              [dg |-> o.hs[i].dg, use |-> o.hs[i].use, wr |-> o.hs[i].wr,
-              cur |-> o.hs[i].cur, c |-> o.hs[i].c]],
+              cur |-> o.hs[i].cur, c |-> Bits(o.hs[i].c)]],
    hmap |-> [d \in Digests |-> o.hmap[d]],
    queue |-> o.queue,
-   backing |-> [d \in Digests |-> o.backing[d]],
-   latest |-> [d \in Digests |-> o.latest[d]],
+   backing |-> [d \in Digests |-> Bits(o.backing[d])],
+   latest |-> [d \in Digests |-> Bits(o.latest[d])],
    th |-> [t \in Threads |->
              IF t \in DOMAIN o.th
              THEN [pc |-> o.th[t].pc, dg |-> o.th[t].dg, h |-> o.th[t].h, ex |-> o.th[t].ex,
-                   ops |-> ObsOps(o.th[t].ops), err |-> FALSE, rc |-> 0]
+                   ops |-> ObsOps(o.th[t].ops), err |-> FALSE, rc |-> {}]
              ELSE IdleThread],       \* the driver lists only threads that are not idle
    ng |-> o.ng, nu |-> o.nu]
 
@@ -71,10 +72,10 @@ ObsState(o) ==
 \* pending Get() has read and its error flag are locals of goroutines).
 Proj(S) ==
   [S EXCEPT !.th = [t \in Threads |->
-     [S.th[t] EXCEPT !.ops = {[o EXCEPT !.v = 0] : o \in @}, !.err = FALSE, !.rc = 0]]]
+     [S.th[t] EXCEPT !.ops = {[o EXCEPT !.v = 0] : o \in @}, !.err = FALSE, !.rc = {}]]]
 
 WriteOps(S, t, d, c, s) ==
-  {o \in S.th[t].ops : o.k = "w" /\ o.st = s /\ o.c = c /\ o.h \in 1 .. Len(S.hs) /\ S.hs[o.h].dg = d}
+  {o \in S.th[t].ops : o.k = "w" /\ o.st = s /\ o.c = Bits(c) /\ o.h \in 1 .. Len(S.hs) /\ S.hs[o.h].dg = d}
 
 \* The model step for a command of the driver (S itself if the model cannot
 \* take it).  The end of Get() follows its last BlobAccess call at once
@@ -101,7 +102,7 @@ ModelStep(S, e, r, g) ==
 StoreVerdict(O, e) ==
   IF ~UseCountBalance(O) THEN "C07:usecount-imbalance"
   ELSE IF ~InUseInMap(O) THEN "C07:handle-in-use-not-in-map-or-queued"
-  ELSE IF e.a = "wa" /\ e.ok /\ e.d \in Digests /\ O.backing[e.d] < st.backing[e.d]
+  ELSE IF e.a = "wa" /\ e.ok /\ e.d \in Digests /\ ~(st.backing[e.d] \subseteq O.backing[e.d])
        THEN "C07:write-replaced-newer-content"
   ELSE IF ~NoLostUpdate(O) THEN "C07:lost-update"
   ELSE "ok"
